@@ -184,10 +184,37 @@ func hasBoundary(v val.V) bool {
 func (p *c10) roundTrip(x *res, item val.Item, ctx *runner.Ctx) {
 	for _, adapter := range adapt.Adapters {
 		spec := mon.SpecHashRange("tbl10")
+		// half of the tables have a PAST: a secondary index over one of the item's attribute names (declared with a
+		// type the item's value does not have) was created with the table and has been deleted since; sometimes an
+		// index of the same name exists again, over another attribute. What a deleted index declared binds nobody.
+		past := ""
+		attrs := []string{}
+		for k := range item {
+			attrs = append(attrs, k)
+		}
+		sort.Strings(attrs)
+		if len(attrs) > 0 && len(item.Canon())%2 == 0 {
+			past = attrs[len(item.Canon())/2%len(attrs)]
+			decl := "S"
+			if item[past].K == val.KS {
+				decl = "N"
+			}
+			spec.Indexes = []adapt.IndexSpec{{Name: "gone", Hash: past, HashT: decl}}
+		}
 		cl, _, ds := freshClient(adapter, spec)
 		if ds != nil {
 			x.viol("setup", "create", ds[0].Detail, spec)
 			return
+		}
+		if past != "" {
+			x.r.Counters["tables_with_a_deleted_index"]++
+			if o := cl.Do(adapt.Op{Kind: adapt.OpUpdateTable, Table: spec.Name, Chg: []adapt.IndexChange{{Delete: "gone"}}}); o.Class != adapt.ClsOK {
+				x.viol("setup", "delete-index", o.Msg, spec)
+				return
+			}
+			if len(item.Canon())%4 == 0 {
+				cl.Do(adapt.Op{Kind: adapt.OpUpdateTable, Table: spec.Name, Chg: []adapt.IndexChange{{Create: &adapt.IndexSpec{Name: "gone", Hash: "zzother", HashT: "S"}}}})
+			}
 		}
 		it := item.Clone()
 		it["h"] = val.Str("k")
